@@ -327,6 +327,7 @@ func (w *world) wipe() {
 	os.Remove(w.l.gateway)
 	os.Remove(w.l.userMetrics)
 	os.Remove(w.l.defMet)
+	os.RemoveAll(filepath.Join(w.l.root, "outside"))
 }
 
 // ls lists the tracked tree as sorted "logical=token" words.
